@@ -374,6 +374,8 @@ def validate(unit=None, digits=('u64', 'u32', 'u16', 'u8'), modes=('dbg',)):
                 print('PROBLEM', d, m, p)
                 bad += 1
             for it in g.items:
+                if getattr(it, 'is_mp', False):
+                    continue  # derived must-panic dual: same tokens as its origin entry, which is validated itself
                 if it.kind in ('fn', 'const') and it.assumed and not it.identical:
                     # [assumed] entries carry `{ unimplemented!() }` instead of the real body: compare the signature only
                     E0, _ = split_ghost(lex(subst(it.entry.text, d)))
@@ -387,6 +389,18 @@ def validate(unit=None, digits=('u64', 'u32', 'u16', 'u8'), modes=('dbg',)):
                     if E0[:len(sig0)] == sig0 and E0[len(sig0):] == ['{', 'unimplemented', '!', '(', ')', '}']:
                         continue
                 if it.kind in ('fn', 'const') and (unit is None or it.entry.unit == unit) and not it.identical:
+                    if it.assumed:
+                        # contract-only entry: the body is `{ unimplemented!() }` by construction; only the
+                        # signature has to be token-identical to the real one
+                        E0, _ = split_ghost(lex(subst(it.entry.text, d)))
+                        it0 = type(it)()
+                        it0.entry = it.entry
+                        it0.key = it.key
+                        it0.log = {}
+                        sig0, _, _, _ = g._extract(it0)
+                        from .overlay import drop_trailing_commas
+                        if E0[:len(E0) - 6] == drop_trailing_commas(sig0) and E0[len(E0) - 6:] == ['{', 'unimplemented', '!', '(', ')', '}']:
+                            continue
                     bad += 1
                     print(f'NOT IDENTICAL {d} {m} {it.key} ratio={it.ratio:.3f}')
                     e = it.entry
